@@ -668,6 +668,19 @@ def _res_map(eng, st, args, ci):
     return _fork_on_result(eng, st, v, on_ok, lambda s, e: [(s, 'ret', Enum('Result', 1, {1: Tup([e])}))])
 
 
+@intrinsic(r'^((std|core)::result::)?Result::<.*>::and_then::<', 'Result::and_then (closure body = real MIR)')
+def _res_and_then(eng, st, args, ci):
+    v, f = args
+    return _fork_on_result(eng, st, v, lambda s, x: eng.call_value(s, f, [x], ci.dest_ty),
+                           lambda s, e: [(s, 'ret', Enum('Result', 1, {1: Tup([e])}))])
+
+
+@intrinsic(r'^((std|core)::result::)?Result::<.*>::ok$', 'Result::ok')
+def _res_ok(eng, st, args, ci):
+    v = args[0]
+    return _fork_on_result(eng, st, v, lambda s, x: [(s, 'ret', some(x))], lambda s, e: [(s, 'ret', NONE)])
+
+
 @intrinsic(r'^((std|core)::result::)?Result::<.*>::map_err::<', 'Result::map_err (closure body = real MIR)')
 def _res_map_err(eng, st, args, ci):
     v, f = args
